@@ -24,7 +24,8 @@ class Ctx:
     def __init__(self, pid, tier, seed):
         self.pid, self.tier, self.seed = pid, tier, seed
         self.t0 = time.time()
-        self.work = os.path.join(WORK, pid)
+        # one scratch directory per run (two runs of the same property may overlap); removed by finish()
+        self.work = os.path.join(WORK, pid, "%s-%d" % (tier, os.getpid()))
         os.makedirs(self.work, exist_ok=True)
         self.violations = []       # (replay_path, no_failing_input_found)
         self.known_hits = {}       # finding id -> count
@@ -317,6 +318,7 @@ def finish(ctx, level="proof", trusted=None, assumptions=None, extra=None):
     os.makedirs(os.path.join(ROOT, "evidence"), exist_ok=True)
     with open(os.path.join(ROOT, "evidence", f"{ctx.pid}.json"), "w") as f:
         json.dump(ev, f, indent=1, ensure_ascii=False)
+    shutil.rmtree(ctx.work, ignore_errors=True)
     ctx.log(f"done: obligations={len(ctx.obligations)} discharged={len(ctx.discharged)} "
             f"violations={len(ctx.violations)} known={ctx.known_hits}")
     return 1 if ctx.violations else 0
